@@ -1053,9 +1053,44 @@ func (b *Base) AssignValue(x *Exec, lhs ast.Expr, rhs ast.Expr, s St) St {
 	eqTerm := ""
 	if rhs != nil && cv == "" {
 		if bt, ok := typ.Underlying().(*types.Basic); ok && bt.Info()&types.IsInteger != 0 {
-			if id, ok := ast.Unparen(rhs).(*ast.Ident); ok {
-				if rt, ok := b.Term(x, id, s); ok && rt != t && !strings.Contains(rt, t) {
+			switch r := ast.Unparen(rhs).(type) {
+			case *ast.Ident, *ast.SelectorExpr:
+				if rt, ok := b.Term(x, r, s); ok && rt != t && !strings.Contains(rt, t) {
 					eqTerm = rt
+				}
+			case *ast.CallExpr:
+				// len(x), int64(len(x)), int64(y)
+				if rt, ok := b.Term(x, r, s); ok && rt != t && !strings.Contains(rt, t) && (strings.HasPrefix(rt, "len(") || isLocalTerm(rt)) {
+					eqTerm = rt
+				}
+			}
+		}
+	}
+	// what is known about t through a term equal to it survives the overwrite
+	if isLocalTerm(t) {
+		for k, v := range s.m {
+			if v != "T" || !strings.HasPrefix(k, "p:") {
+				continue
+			}
+			body := k[2:]
+			i := strings.Index(body, "==")
+			if i < 0 {
+				continue
+			}
+			other := ""
+			if body[:i] == t {
+				other = body[i+2:]
+			} else if body[i+2:] == t {
+				other = body[:i]
+			}
+			if other == "" || strings.HasPrefix(other, "#") || mentionsTerm(other, t) {
+				continue
+			}
+			for k2, v2 := range s.m {
+				if k2 != k && strings.HasPrefix(k2, "p:") && !strings.Contains(k2, "==") && mentionsTerm(k2, t) {
+					if nk := substTerm(k2, t, other); !mentionsTerm(nk, t) {
+						s = s.Set(nk, v2)
+					}
 				}
 			}
 		}
